@@ -368,6 +368,13 @@ impl<'a> FnTr<'a> {
                         }
                         continue;
                     }
+                    // builder R: `let mut flag = 1 << (channel & 7);` — an integer expression whose type only its
+                    // literals leave open is typed by the first later statement that combines the variable with a
+                    // typed place (`self.0[index] |= flag`), as rustc's inference does
+                    let expect = match (&expect, &l.pat) {
+                        (None, Pat::Ident(pi)) if open_int_expr(&init.expr) => self.infer_from_uses(&pi.ident.to_string(), &stmts[i + 1..], env),
+                        _ => expect,
+                    };
                     let (term, ty) = self.ex(&init.expr, env, &mut st, expect.clone())?;
                     let ty = match (&ty, &expect) {
                         (Ty::IntLit, Some(e)) => e.clone(),
@@ -490,6 +497,23 @@ impl<'a> FnTr<'a> {
                             let (base, _) = self.ex(&ix.expr, env, &mut st, None)?;
                             let (i, _) = self.ex(&ix.index, env, &mut st, Some(Ty::Int("usize")))?;
                             let (v, _) = self.ex(&a.right, env, &mut st, Some(el))?;
+                            let t = self.act(&mut st, format!("Rt.setIdx {} {} {}", paren(&base), paren(&i), paren(&v)));
+                            st.push((lean_ident(&root), Rhs::Pure(update_term(&lean_ident(&root), &fields, &t))));
+                        }
+                        // builder R: op-assignment through an index, `place[i] |= v` (out of bounds: a panic)
+                        Expr::Binary(b) if is_assign_op(&b.op) && matches!(&*b.left, Expr::Index(_)) => {
+                            let ix = match &*b.left {
+                                Expr::Index(ix) => ix,
+                                _ => unreachable!(),
+                            };
+                            let (root, fields, pty) = self.place(&ix.expr, env)?;
+                            let el = match &pty {
+                                Ty::Arr(el) => (**el).clone(),
+                                _ => return Err("index op-assignment on a non-array".into()),
+                            };
+                            let (v, _) = self.binop(&b.left, &assign_to_bin(&b.op), &b.right, env, &mut st, Some(el))?;
+                            let (base, _) = self.ex(&ix.expr, env, &mut st, None)?;
+                            let (i, _) = self.ex(&ix.index, env, &mut st, Some(Ty::Int("usize")))?;
                             let t = self.act(&mut st, format!("Rt.setIdx {} {} {}", paren(&base), paren(&i), paren(&v)));
                             st.push((lean_ident(&root), Rhs::Pure(update_term(&lean_ident(&root), &fields, &t))));
                         }
@@ -750,6 +774,51 @@ impl<'a> FnTr<'a> {
         }
     }
 
+    /// builder R: the integer type a later statement forces on the variable `x` (declared without a type and
+    /// initialised by literals only): the type of the place it is combined with or assigned to
+    fn infer_from_uses(&mut self, x: &str, rest: &[Stmt], env: &Env) -> Option<Ty> {
+        struct V<'a> {
+            x: &'a str,
+            found: Vec<Expr>,
+        }
+        impl<'a, 'ast> syn::visit::Visit<'ast> for V<'a> {
+            fn visit_expr_binary(&mut self, b: &'ast ExprBinary) {
+                let is_x = |e: &Expr| matches!(e, Expr::Path(p) if p.path.is_ident(self.x));
+                if !matches!(b.op, BinOp::Shl(_) | BinOp::Shr(_) | BinOp::ShlAssign(_) | BinOp::ShrAssign(_)) {
+                    if is_x(&b.right) {
+                        self.found.push((*b.left).clone());
+                    } else if is_x(&b.left) {
+                        self.found.push((*b.right).clone());
+                    }
+                }
+                syn::visit::visit_expr_binary(self, b);
+            }
+            fn visit_expr_assign(&mut self, a: &'ast ExprAssign) {
+                if matches!(&*a.right, Expr::Path(p) if p.path.is_ident(self.x)) {
+                    self.found.push((*a.left).clone());
+                }
+                syn::visit::visit_expr_assign(self, a);
+            }
+        }
+        let mut v = V { x, found: vec![] };
+        for s in rest {
+            syn::visit::Visit::visit_stmt(&mut v, s);
+        }
+        for e in v.found {
+            let t = match &e {
+                Expr::Index(ix) => match self.place(&ix.expr, env) {
+                    Ok((_, _, Ty::Arr(el))) => Some(*el),
+                    _ => None,
+                },
+                other => self.place(other, env).ok().map(|(_, _, t)| t),
+            };
+            if let Some(t @ Ty::Int(_)) = t {
+                return Some(t);
+            }
+        }
+        None
+    }
+
     /// builder L: an assignable place: (root variable, field chain, type of the place)
     fn place(&mut self, e: &Expr, env: &Env) -> Res<(String, Vec<String>, Ty)> {
         match e {
@@ -767,6 +836,14 @@ impl<'a> FnTr<'a> {
                     (Member::Named(id), Ty::Named(sn)) => {
                         let fs = self.reg.structs.get(sn).ok_or(format!("field access on non-struct {}", sn))?;
                         let fname = id.to_string();
+                        let fty = fs.iter().find(|(n, _)| *n == fname).ok_or(format!("no field {} in {}", fname, sn))?.1.clone();
+                        fields.push(fname);
+                        Ok((root, fields, fty))
+                    }
+                    // builder R: the field of a newtype as a place (`self.0[i] = v`)
+                    (Member::Unnamed(ix), Ty::Named(sn)) => {
+                        let fs = self.reg.structs.get(sn).ok_or(format!("field access on non-struct {}", sn))?;
+                        let fname = ix.index.to_string();
                         let fty = fs.iter().find(|(n, _)| *n == fname).ok_or(format!("no field {} in {}", fname, sn))?.1.clone();
                         fields.push(fname);
                         Ok((root, fields, fty))
@@ -2130,7 +2207,15 @@ impl<'a> FnTr<'a> {
         if (name == "Ok" || name == "Err") && self.reg.io.borrow().mode {
             return crate::phyio::ok_err(self, &name, c, env, st, expect);
         }
-        if name == "Some" {
+        // builder R: constructing a `Result` whose error value is never inspected (builder N's reading:
+        // `Ok(x)` = `some x`, `Err(_)` = `none`)
+        if name == "Err" && c.args.len() == 1 {
+            return match &expect {
+                Some(t @ Ty::Opt(_)) => Ok(("none".to_string(), t.clone())),
+                _ => Err("`Err(..)` where no `Result` type is expected".into()),
+            };
+        }
+        if name == "Some" || name == "Ok" {
             let inner = match &expect {
                 Some(Ty::Opt(t)) => Some((**t).clone()),
                 _ => None,
@@ -2584,6 +2669,21 @@ impl<'a> FnTr<'a> {
             Ty::Bool => Err(format!("unsupported bool method {}", name)),
             _ => Err(format!("unsupported method {} on {:?}", name, tr)),
         }
+    }
+}
+
+/// builder R: an integer expression whose type is left open by its literals (`1 << (c & 7)`, `0xff`, `!0`)
+fn open_int_expr(e: &Expr) -> bool {
+    match e {
+        Expr::Lit(ExprLit { lit: Lit::Int(i), .. }) => i.suffix().is_empty(),
+        Expr::Paren(p) => open_int_expr(&p.expr),
+        Expr::Unary(u) => matches!(u.op, UnOp::Not(_) | UnOp::Neg(_)) && open_int_expr(&u.expr),
+        Expr::Binary(b) => match b.op {
+            BinOp::Shl(_) | BinOp::Shr(_) => open_int_expr(&b.left),
+            BinOp::Add(_) | BinOp::Sub(_) | BinOp::Mul(_) | BinOp::Div(_) | BinOp::Rem(_) | BinOp::BitAnd(_) | BinOp::BitOr(_) | BinOp::BitXor(_) => open_int_expr(&b.left) && open_int_expr(&b.right),
+            _ => false,
+        },
+        _ => false,
     }
 }
 
